@@ -55,7 +55,8 @@ theorem procPair_cl (s : PState) (p : Pair) (h : (procPair ext s p).ctx ≠ .sto
       | some oid =>
         have hl' : lookup k1 (s.cl.P.node s.cl.cur).opts = some oid := by rw [hnode]; exact hl
         rw [procPair_known ext s p k1 oid hr hl, procPair_known ext s.cl p k1 oid hr' hl', hn0]
-        have hm : matched s.cl oid k1 = matched s oid k1 := rfl
+        have hm : matched s.cl oid k1 = matched s oid k1 := by
+          unfold matched; rw [hn0]; rfl
         rw [hm]
         cases save ext (s.P.node 0).mapKeysToLower (matched s oid k1) p.args with
         | error e => rfl
